@@ -592,7 +592,15 @@ def as_library_reads(t):
 def _kf_pow(case, clause, detail):  # pylint: disable=unused-argument
     """A case of the class (unary sign on, or chain of, unparenthesised **) whose column is exactly what the recorded
     reading gives; any other value for such an expression is reported."""
-    if not case.get("pitfall"):
+    if not case.get("pitfall") or clause not in ("value", "raises"):
+        return False
+    if clause == "raises":
+        # the recorded reading can also turn an expression Python evaluates into one it refuses, e.g. booleans:
+        # b ** (c ** x) is fine, (b ** c) ** x is "pow not implemented for bool"
+        try:
+            py_value(render(as_library_reads(_tup(case["tree"])), None), Recorder())
+        except Exception:  # pylint: disable=broad-except
+            return True
         return False
     try:
         t = _tup(case["tree"])
